@@ -356,6 +356,10 @@ impl SecondaryTransaction {
         if let Some(rowsets) = self.snapshot.get_rowsets_of(self.table.table_id()) {
             for rowset_id in rowsets {
                 let rowset = self.version.get_rowset(self.table.table_id(), *rowset_id);
+                if rowset.check_readable().is_err() {
+                    // (statistics only: a scan of the RowSet reports the error)
+                    continue;
+                }
                 for ((_, col_idx), agg) in ty.iter().zip(agg.iter_mut()) {
                     let user_col_idx = match col_idx {
                         StorageColumnRef::Idx(idx) => idx,
